@@ -76,13 +76,18 @@ add("C11", "Call histories on one Adf object: every answer after a history is ju
     "on every transition of the closed two-variable store graph (results independent of memo contents), and AdfRobdd.tla: the API-session machine in which "
     "grounded / complete / stable are transcribed ON the store model (AdfRobddOps, predicting raw handles) - any sequence of calls and extra formulas on one "
     "object for all 256 two-statement ADFs yields the definitional answers and keeps the store invariants. Trace_Bdd steps the same operators along recorded "
-    "histories from the real pre-state and compares every raw answer and the final node table (drift only).", BDD_NOTE,
+    "histories from the real pre-state and compares every raw answer and the final node table (drift only). The documented repair step (fix_import) is one "
+    "of the call kinds; a determinism pre-filter runs a fixed nine-call history twice on 20 000 (thorough 120 000) random ADFs and hands every differing pair to TLC.", BDD_NOTE,
     "TLC trace validation of call histories (after-history vs definition vs fresh vs repeated run) + memo-table audit; store model checked exhaustively", "6/C11")
 add("C14", "Persist.tla runs an original store and an imported / rebuilt copy in lock-step through every operation history over two variables "
     "(4072 states, 2.5 M transitions): identical tables, identical results, regenerated dependency lists and counts exact. On the code side a serde "
     "round trip + fix_import or a rebuild from decimal strings through Bdd::from(Vec<BddNode>) happens at a random point of seeded call histories "
-    "(native and bridged ADFs) and of raw store sequences; TLC checks identical node numbering, identical roots and equal answers for all later calls.",
-    BDD_NOTE + " The CLI --export/--import path and the no-overwrite rule are exercised through the C15 CLI runner (see C15).",
+    "(native and bridged ADFs) and of raw store sequences; TLC checks identical node numbering, identical roots, equal answers with the SAME handles for all "
+    "later calls and an identical node table at the end. CLI side: CliFs.tla is the directory machine (source read as text or --import state, --export creates the "
+    "file only if nothing exists under the name); TLC checks every initial directory of four names x three invocations, TLAPS proves never-overwrite unbounded "
+    "(proofs/CliFsProof), and Trace_Cli follows random sessions of the real binary with CliFsOps!FsAfter (bystander files, exports onto sources / earlier exports / "
+    "sibling names; directory fingerprinted after every invocation).",
+    BDD_NOTE + " The CLI launches themselves are shared with the C15 runner.",
     "TLA+ lock-step model of original and persisted copy model-checked; TLC trace validation of real round trips in mid-history", "6/C14")
 
 add("C18", "NoGoods.tla: every add sequence of <= 3 (thorough: 4) nogoods over 3 positions under all modes incl. mode switches; after every step "
@@ -97,7 +102,8 @@ add("C18", "NoGoods.tla: every add sequence of <= 3 (thorough: 4) nogoods over 3
 add("C20", "Both odometers are transcribed as step functions on their private state (Iterators.tla); MC_Iter runs them as machines for all 364 "
     "vectors of length <= 5 (7455 states): never a wrong or repeated item, exactly the 2^k / 3^k refinements at exhaustion, first item = the vector, "
     "nothing after the first None, termination under fairness. The real iterators are run on the same 364 vectors and on seeded longer ones; TLC "
-    "judges the raw items (decided positions untouched, handles verbatim, no duplicates, exact count) and compares the emission order with the model (drift).",
+    "judges the raw items (decided positions untouched, handles verbatim, no duplicates, exact count) and compares the emission order with the model (drift); "
+    "vectors with 12-130 undecided positions (every machine-word boundary of 2^k / 3^k) are drawn for 40 items and followed by the model.",
     "Trusted: TLC evaluating spec/Iterators.tla; harness logging the iterators' raw output. Bounded: length <= 5 exhaustively, <= 10 sampled.",
     "TLA+ state machines of both odometers model-checked (safety + liveness); TLC trace validation of real iterator output", "6/C20")
 
@@ -105,7 +111,8 @@ add("C19", "Frontend.tla models producer, relay and receiver with one action per
     "steps fall inside polls: TLC explores every interleaving and every requested handle for streams of 6 nodes (16471 states; thorough 9 nodes) with "
     "the prefix invariant (relay o c1 = prod, recv o c2 = relay), the found-flag rule, monotonicity and equality at quiescence. Real stores: the real "
     "producer's messages are forwarded one at a time between real Bdd::recv calls following exhaustive short and seeded long schedules, plus free-running "
-    "threads; TLC validates every observed table against the producer's final table and iterates the model's Begin/Take steps to predict every poll (drift).",
+    "threads; TLC validates every observed table against the producer's final table and iterates the model's Begin/Take steps to predict every poll (drift). "
+    "proofs/FrontendProof.tla (TLAPS, 145 obligations, run by the check) proves the chain equations and the answer rule inductive for ANY stream length.",
     "Trusted: TLC evaluating spec/Frontend.tla; crossbeam channel lengths as the count of unconsumed messages. Bounded: <= 9 streamed nodes on the model; "
     "schedules of length 3 exhaustively and <= 40 sampled on the code; chains of length 2.",
     "TLA+ model of the streaming chain model-checked over all interleavings; TLC trace validation of scheduled and threaded real runs", "6/C19")
@@ -147,7 +154,8 @@ add("C12", "The cargo features are CONSTANTS of the store model (RobddOps): TLC 
     "(no variable lists; ad-hoc model counting; no counting). The harness is rebuilt from /repo under each feature combination (quick: 4, thorough: all 11 "
     "non-default ones) and runs the same seeded workload as the default build (every semantics variant, store operations with all queries in varying order, "
     "call histories); every build's trace is validated with the same Trace modules (model constants matching the build) and compared record by record with "
-    "the default build's answers by TLC, the documented memoisation exception being keyed on the logged feature set.",
+    "the default build's answers by TLC, the documented memoisation exception being keyed on the logged feature set. The adf-bdd binary itself is built "
+    "under each feature set too and a CLI workload (launches, export / import, directory sessions) is judged by Trace_Cli per build.",
     "Trusted: TLC evaluating the Trace modules; cargo forwarding the harness features to adf_bdd. The frontend feature only adds the streaming API (C19); "
     "its absence is covered by building and running the whole workload without it.",
     "TLA+ store model model-checked per feature constant setting; TLC trace validation of the same workload under each feature build + TLC record-by-record comparison with the default build", "6/C12")
@@ -166,14 +174,20 @@ add("C16", "Server.tla models handlers and background tasks with one action per 
     "a task be shown as running only to the person who started it for that problem (slow-task scenario with two users owning same-named problems). Footprint "
     "conformance: each request's database commands are compared with ServerShapes!HandlerCommands (commands, collections, filter keys; drift only). "
     "Action-level conformance (Trace_ServerModel, drift only): every scenario must be a behaviour of Server.tla's own Start / Step / TaskStep actions with the "
-    "recorded statuses, and at observed quiescence the model's documents and accounts must equal the database snapshot (TLC infers task timing; 32 of 32 scenarios explained).",
+    "recorded statuses, and at observed quiescence the model's documents and accounts must equal the database snapshot (TLC infers task timing; all scenarios explained). "
+    "Grant tracking: a solve is refused (409) only if that person was granted it for that problem before, and every granted solve has left a result at quiescence; "
+    "the model carries a ghost cause for lost results (rename during a running task; --selftest).",
     SERVER_NOTE, "TLA+ model of the service at database-command granularity model-checked with cause-classified invariants; TLC trace validation of real "
     "HTTP/database observations against definitional semantics; race replay through a scheduling database stub", "6/C16")
 add("C17", "Same model with ghost ownership (accounts and documents remember the person who created them): within the bound every foreign read or effect is "
     "explained by the rename window or the stale task write - nothing else ever leaks (569 k states); --selftest: dropping the owner filter from one handler "
     "yields an unexplained foreign read. On the binary: statement labels carry the submitting principal, so TLC checks that no response to p contains a problem "
     "p did not submit, that snapshot-to-snapshot deletions / re-ownings touch only the acting principals' documents, anonymous requests get 401, login "
-    "succeeds iff the password is the one last set, credentials are salted argon2 hashes; the rename window is replayed with the stub holding update_many.",
+    "succeeds iff the password is the one last set, credentials are salted argon2 hashes; the rename window is replayed with the stub holding update_many. "
+    "Principals are cookie jars and Person(p) the person behind a jar: with a second device (Server_c17_dev, 2 M states) TLC shows every leak is one of four "
+    "causes - rename window, stale task write, stale session (a cookie outlives its account: F12), delete window (F14) - each replayed on the real binary. "
+    "Account tracking: the account a request speaks for (followed through renames) still lists / gets every problem added to it; look-alike account names "
+    "(trailing blank, case) in a third of the scenarios; the stub parks the second command of an account deletion while another person tries to take the name.",
     SERVER_NOTE, "TLA+ model with ghost ownership model-checked (all interleavings, cause-classified); TLC trace validation of multi-user histories on the real "
     "binary; deterministic race replay via the database stub", "6/C17")
 
